@@ -1107,7 +1107,7 @@ class DropnaFrame(Blockwise):
     operation = M.dropna
 
     def _simplify_up(self, parent, dependents):
-        if self.subset is not None:
+        if self.subset is not None and isinstance(parent, Projection):
             columns = determine_column_projection(
                 self, parent, dependents, additional_columns=self.subset
             )
